@@ -154,6 +154,27 @@ def check_history(drv, r, carver, stats):
             elif m == "nan" and not (val is None or (isinstance(val, float) and math.isnan(val))):
                 fail("recorded association value should be NaN", feature=f, entry=i, recorded=val)
                 break
+        # the shape of the history against the Lean model of `_get_best_association` (Hist.testInOrder, theorems of
+        # HistoryThm): per round rejected entries, at most one flagged viable, then unchecked ones; values non-increasing
+        rounds = [[e for e in entries[1:] if not e.get("grouping_nan")], [e for e in entries[1:] if e.get("grouping_nan")]]
+        rounds = [rd for rd in rounds if rd]
+
+        def key_w(e):
+            v = e.get(sort_by)
+            return None if v is None or (isinstance(v, float) and math.isnan(v)) else core.rat(core.fractions.Fraction(float(v)))
+        if rounds:
+            jr = drv.call({"op": "judge.history", "rounds": [{"flags": [e.get("viability") if isinstance(e.get("viability"), bool) else None for e in rd],
+                                                               "keys": [key_w(e) for e in rd]} for rd in rounds]})
+            stats["history_rounds"] = stats.get("history_rounds", 0) + len(rounds)
+            if not jr["shape_ok"]:
+                fail("history: a round is not 'rejected ..., one viable, then not checked' (model Hist.testInOrder)", feature=f,
+                     flags=[[e.get("viability") for e in rd] for rd in rounds])
+            if not jr["sorted_ok"]:
+                fail("history: the combinations of a round were not tested in decreasing order of association", feature=f)
+            flat = [e for rd in rounds for e in rd]
+            py_last = max([i for i, e in enumerate(flat) if e.get("viability") is True], default=None)
+            if jr["last_viable"] != py_last:
+                fail("model and harness disagree on the last viable entry", kind_="correspondence", feature=f)
         # last viable entry = fitted grouping
         if f in carver.features:
             g, problem = carvecase.impl_grouping(carver, f, Xd[f], ds["X"], labs)
